@@ -970,6 +970,7 @@ func TestC07(t *testing.T) {
 	nChain := r.N(48, 800)
 	nShape := r.N(320, 6500)
 	nFelt := r.N(16, 300)
+	r.Cases(r.N(60, 1200), 0, func(idx int) { runOvertakenAccessors(r, idx) })
 	r.Cases(nChain+nShape+nFelt, 0, func(idx int) {
 		switch {
 		case idx < nChain:
